@@ -230,7 +230,9 @@ class C13(Prop):
     engine = "hier"
     fit = "C"
     rule = ("one evaluation = one generated hierarchical design with colliding names, identifiers and a user "
-            "key, under the DEFAULT or EDIF policy, followed by 20-60 sampled query shapes (function, root kind "
+            "key, under the DEFAULT or EDIF policy, followed by 20-60 sampled query shapes interleaved with edits "
+            "(re-assigned, deleted or popped names and identifiers; unconnected ports, cables and leaf instances "
+            "removed from their parents) (function, root kind "
             "incl. collections and hierarchical references, selection, recursive, key); for each shape the "
             "unfiltered result U is computed once and every derived pattern (exact, case-swapped, prefix*, "
             "single ?, escaped regex, is_case on/off, several patterns, filter callback) must return exactly "
